@@ -388,4 +388,55 @@ theorem vertexMean_equivariant (vs : List (V3 ℝ)) (t : V3 ℝ) (h : vs ≠ [])
   · simp only [V3.sdiv_z, V3.add_z, V3.sum_z, List.map_map, List.length_map]
     rw [sum_map_add (·.z) _ t.z vs (fun v => by simp)]; field_simp
 
+
+/-! ### witnesses used by the examples and the `_fails` theorem of Props/C19.lean -/
+
+theorem norm_ez : V3.norm (⟨0, 0, -1⟩ : V3 ℝ) = 1 := by
+  simp [V3.norm, V3.normSq, V3.dot]
+
+/-- measure getters used by the examples: the centre is the vertex mean; a measure's value records
+which vertex set it was evaluated on (sum of x-coordinates, rows of x-coordinates). -/
+noncomputable def exM : Meas ℝ where
+  cen := vertexMean
+  scalar := fun name vs => (name.length : ℝ) + (vs.map (·.x)).sum
+  tensor := fun vs => [vs.map (·.x), vs.map (·.y)]
+  scalarC := fun name c => (name.length : ℝ) + c.x
+  tensorC := fun c => [[c.x, c.y, c.z]]
+
+theorem exM_equivariant : Spec.Equivariant exM := fun vs t h => vertexMean_equivariant vs t h
+
+/-- centring (`centroid = 0`) moves the vertices to `original − centroid` -/
+theorem centre_recomputed (M : Meas ℝ) (vs : List (V3 ℝ)) (c0 : V3 ℝ) :
+    (setCentroid M .recomputed ⟨vs, c0⟩ V3.zero).verts = Spec.centred vs (M.cen vs) := by
+  simp only [setCentroid, centroidOf, map_shift_zero]
+
+theorem centre_cached (M : Meas ℝ) (vs : List (V3 ℝ)) :
+    (setCentroid M .cached ⟨vs, M.cen vs⟩ V3.zero).verts = Spec.centred vs (M.cen vs) := by
+  simp only [setCentroid, centroidOf, map_shift_zero]
+
+theorem centre_cached_cache (M : Meas ℝ) (vs : List (V3 ℝ)) :
+    (setCentroid M .cached ⟨vs, M.cen vs⟩ V3.zero).cache = M.cen (Spec.centred vs (M.cen vs)) := by
+  simp only [setCentroid, centroidOf, map_shift_zero]
+
+/-- the state a polytope is left in after `centre; …; restore` is the state it started in -/
+theorem restore_recomputed {M : Meas ℝ} (hM : Spec.Equivariant M) {vs : List (V3 ℝ)} (h : vs ≠ [])
+    (c0 : V3 ℝ) :
+    (setCentroid M .recomputed (setCentroid M .recomputed ⟨vs, c0⟩ V3.zero) (M.cen vs)).verts = vs := by
+  simp only [setCentroid, centroidOf, map_shift_zero, cen_centred hM h, map_shift_back]
+
+theorem restore_cached {M : Meas ℝ} (hM : Spec.Equivariant M) {vs : List (V3 ℝ)} (h : vs ≠ []) :
+    (setCentroid M .cached (setCentroid M .cached ⟨vs, M.cen vs⟩ V3.zero) (M.cen vs)).verts = vs := by
+  simp only [setCentroid, centroidOf, map_shift_zero, cen_centred hM h, map_shift_back]
+
+theorem v3list_zero : v3list (V3.zero : V3 ℝ) = [lit 0, lit 0, lit 0] := rfl
+
+/-- the unit square `[0,1]²` (counter-clockwise), centroid `(1/2, 1/2, 0)` — the fixture of
+`tests/test_spheropolygon.py::test_to_hoomd` -/
+def unitSquare : List (V3 ℝ) := [⟨0, 0, 0⟩, ⟨1, 0, 0⟩, ⟨1, 1, 0⟩, ⟨0, 1, 0⟩]
+
+theorem exM_cen_unitSquare : exM.cen unitSquare = ⟨1/2, 1/2, 0⟩ := by
+  simp only [exM, vertexMean, unitSquare, V3.sum, List.foldr, V3.add, V3.zero, V3.sdiv, List.length]
+  norm_num [Scalar.lit]
+
+
 end C19
